@@ -1379,6 +1379,14 @@ class VarSub(Vars):
         indices_all = super().get_ind()
         return indices_all[self.indices].flatten()
 
+    def get(self):
+
+        var_sol = np.array(super().get()).reshape((self.size, ))[self.indices]
+        if var_sol.ndim == 0:
+            var_sol = var_sol.item()
+
+        return var_sol
+
     def __getitem__(self, item):
 
         new_indices = self.indices[item]
